@@ -3,6 +3,7 @@
 // @also C01
 // @engine B
 // @entry vfh_C15_convert_units
+// @shared_state_watch
 // @tier Q
 // @reach convert_units.done
 // @funcs Phreeqc::convert_units
